@@ -7,5 +7,6 @@ import vlib
 b = vlib.Build("regen")
 b.dir = os.path.join(vlib.VERIF, sys.argv[1]) if len(sys.argv) > 1 else vlib.COQ_SRC
 b.regenerate()
-for k, n, d in b.broken:
-    print("BROKEN", k, n, d)
+for item in b.broken:
+    print("BROKEN", *item[:3])
+sys.exit(1 if b.broken else 0)
